@@ -115,14 +115,64 @@ theorem modifyL_cons (c : FNode × Nat) (r : List (FNode × Nat)) (cur off : Nat
       else (c :: (modifyL r (cur + c.2) off buf).1, (modifyL r (cur + c.2) off buf).2) := by
   rw [modifyL]
 
+/-- a per-child shape check survives replacing the child by one that verifies wherever the old one did -/
+theorem childOK_imp (st : Bool) (w : Nat) (D : Int) (i : Nat) (t t' : FNode)
+    (himp : ∀ D : Int, tshape w D t = true → tshape w D t' = true) (h : childOK st w D i t = true) :
+    childOK st w D i t' = true := by
+  unfold childOK at h ⊢
+  split
+  · rename_i hi
+    simp only [hi, if_true] at h
+    cases st with
+    | false => simp
+    | true => simpa using himp 0 (by simpa using h)
+  · rename_i hi
+    simp only [hi, if_false, Bool.and_eq_true] at h ⊢
+    exact ⟨h.1, himp _ h.2⟩
+
+/-- relaxed or strict, a list of at most `w - i` children starting at index `i` has nothing to check when relaxed -/
+theorem tshapeL_relaxed_short (w : Nat) (D : Int) (cs : List (FNode × Nat)) : ∀ i, i + cs.length ≤ w →
+    tshapeL false w D i cs = true := by
+  induction cs with
+  | nil => intro i _; simp
+  | cons c r ih =>
+    intro i h
+    simp only [List.length_cons] at h
+    have : i < w := by omega
+    rw [tshapeL_cons']
+    simp [childOK, this, ih (i + 1) (by omega)]
+
+theorem tshapeL_relax (w : Nat) (D : Int) (cs : List (FNode × Nat)) : ∀ i, tshapeL true w D i cs = true →
+    tshapeL false w D i cs = true := by
+  induction cs with
+  | nil => intro i _; simp
+  | cons c r ih =>
+    intro i h
+    rw [tshapeL_cons'] at h ⊢
+    simp only [Bool.and_eq_true] at h ⊢
+    refine ⟨?_, ih _ h.2⟩
+    have h1 := h.1
+    unfold childOK at h1 ⊢
+    split
+    · simp
+    · rename_i hi; simpa [hi] using h1
+
+theorem rootShape_relax (w : Nat) (t : FNode) (h : tshape w (-1) t = true) : rootShape false w (-1) t = true := by
+  cases t with
+  | leaf d => simp at h
+  | node fs cs =>
+    simp only [tshape_node, Bool.and_eq_true] at h
+    exact tshapeL_relax w (-1) cs 0 h.2
+
 /-- everything modifyDag guarantees on a well-sized tree -/
 def ModOK (w : Nat) (t t' : FNode) (rest : List UInt8) (off : Nat) (buf : List UInt8) : Prop :=
   content t' = ow (content t) off buf ∧ rest = owRest (content t) off buf ∧ wellSized t' = true ∧
-  size t' = size t ∧ (∀ D : Int, tshape w D t = true → tshape w D t' = true) ∧ (isNode t' = isNode t)
+  size t' = size t ∧ (∀ D : Int, tshape w D t = true → tshape w D t' = true) ∧ (isNode t' = isNode t) ∧
+  (∀ (st : Bool) (D : Int), rootShape st w D t = true → rootShape st w D t' = true)
 
 def ModLOK (w : Nat) (cs cs' : List (FNode × Nat)) (rest : List UInt8) (o : Nat) (buf : List UInt8) : Prop :=
   contentL cs' = ow (contentL cs) o buf ∧ rest = owRest (contentL cs) o buf ∧ wellSizedL cs' = true ∧
-  recSum cs' = recSum cs ∧ (∀ (D : Int) i, tshapeL w D i cs = true → tshapeL w D i cs' = true)
+  recSum cs' = recSum cs ∧ (∀ (st : Bool) (D : Int) i, tshapeL st w D i cs = true → tshapeL st w D i cs' = true)
 
 theorem modify_ok (w : Nat) (t : FNode) :
     wellSized t = true → ∀ off buf, ModOK w t (modifyDag t off buf).1 (modifyDag t off buf).2 off buf := by
@@ -132,16 +182,19 @@ theorem modify_ok (w : Nat) (t : FNode) :
       ModLOK w cs (modifyL cs cur off buf).1 (modifyL cs cur off buf).2 (off - cur) buf)
     ?_ ?_ ?_ ?_ t
   · intro d _ off buf
-    simp [ModOK, isNode]
+    simp [ModOK, isNode, rootShape]
   · intro fs cs ih hws off buf
     simp only [wellSized_node, Bool.and_eq_true, beq_iff_eq] at hws
     obtain ⟨h1, h2, h3, h4, h5⟩ := ih hws.2 0 off buf (Nat.zero_le _)
     simp only [Nat.sub_zero] at h1 h2
-    refine ⟨by simpa using h1, by simpa using h2, ?_, by simp, ?_, by simp [isNode]⟩
+    refine ⟨by simpa using h1, by simpa using h2, ?_, by simp, ?_, by simp [isNode], ?_⟩
     · simp [h3, h4, hws.1]
     · intro D hD
       simp only [modifyDag_node, tshape_node, Bool.and_eq_true] at hD ⊢
-      exact ⟨hD.1, h5 D 0 hD.2⟩
+      exact ⟨hD.1, h5 true D 0 hD.2⟩
+    · intro st D hD
+      simp only [modifyDag_node, rootShape] at hD ⊢
+      exact h5 st D 0 hD
   · intro _ cur off buf _
     simp [ModLOK, ow, owRest]
   · intro c r ihc ihr hws cur off buf hle
@@ -151,7 +204,7 @@ theorem modify_ok (w : Nat) (t : FNode) :
     rw [modifyL_cons]
     by_cases hgt : cur + c.2 > off
     · simp only [hgt, if_true]
-      obtain ⟨m1, m2, m3, m4, m5, _⟩ := ihc hcw (off - cur) buf
+      obtain ⟨m1, m2, m3, m4, m5, _, _⟩ := ihc hcw (off - cur) buf
       have hoa := ow_append (content c.1) (contentL r) (off - cur) buf
       have hz : off - cur - (content c.1).length = 0 := by omega
       rw [hz] at hoa
@@ -164,17 +217,10 @@ theorem modify_ok (w : Nat) (t : FNode) :
         · rw [contentL_cons, hoa.2, hemp, owRest_nil_buf]
           rw [m2] ; exact hemp
         · simp only [wellSizedL_cons, m3, m4, hrw, ← hc2]; simp
-        · intro D i h
+        · intro st D i h
           rw [tshapeL_cons'] at h ⊢
           simp only [Bool.and_eq_true] at h ⊢
-          refine ⟨?_, h.2⟩
-          have h1 := h.1
-          unfold childOK at h1 ⊢
-          split
-          · rename_i hi; simp only [hi, if_true] at h1; exact m5 _ h1
-          · rename_i hi
-            simp only [hi, if_false, Bool.and_eq_true] at h1 ⊢
-            exact ⟨h1.1, m5 _ h1.2⟩
+          exact ⟨childOK_imp st w D i _ _ m5 h.1, h.2⟩
       · simp only [he, Bool.false_eq_true, if_false]
         obtain ⟨r1, r2, r3, r4, r5⟩ := ihr hrw (cur + c.2) (cur + c.2) (modifyDag c.1 (off - cur) buf).2
           (Nat.le_refl _)
@@ -185,17 +231,10 @@ theorem modify_ok (w : Nat) (t : FNode) :
         · rw [contentL_cons, hoa.2, r2]
         · simp only [wellSizedL_cons, m3, m4, r3, ← hc2]; simp
         · simp [r4]
-        · intro D i h
+        · intro st D i h
           rw [tshapeL_cons'] at h ⊢
           simp only [Bool.and_eq_true] at h ⊢
-          refine ⟨?_, r5 D _ h.2⟩
-          have h1 := h.1
-          unfold childOK at h1 ⊢
-          split
-          · rename_i hi; simp only [hi, if_true] at h1; exact m5 _ h1
-          · rename_i hi
-            simp only [hi, if_false, Bool.and_eq_true] at h1 ⊢
-            exact ⟨h1.1, m5 _ h1.2⟩
+          exact ⟨childOK_imp st w D i _ _ m5 h.1, r5 st D _ h.2⟩
     · simp only [hgt, if_false]
       obtain ⟨r1, r2, r3, r4, r5⟩ := ihr hrw (cur + c.2) off buf (by omega)
       have hb := ow_beyond (content c.1) (off - cur) buf (by omega)
@@ -207,10 +246,10 @@ theorem modify_ok (w : Nat) (t : FNode) :
       · rw [contentL_cons, hoa.2, r2]
       · simp only [wellSizedL_cons, hcw, r3, ← hc2]; simp
       · simp [r4]
-      · intro D i h
+      · intro st D i h
         rw [tshapeL_cons'] at h ⊢
         simp only [Bool.and_eq_true] at h ⊢
-        exact ⟨h.1, r5 D _ h.2⟩
+        exact ⟨h.1, r5 st D _ h.2⟩
 
 /-! ### dagTruncate -/
 
@@ -234,7 +273,8 @@ theorem truncL_cons (c : FNode × Nat) (r : List (FNode × Nat)) (cur sz : Nat) 
 
 def TruncOK (w : Nat) (t t' : FNode) (sz : Nat) : Prop :=
   content t' = (content t).take sz ∧ wellSized t' = true ∧ size t' = sz ∧
-  (∀ D : Int, tshape w D t = true → tshape w D t' = true) ∧ isNode t' = isNode t
+  (∀ D : Int, tshape w D t = true → tshape w D t' = true) ∧ isNode t' = isNode t ∧
+  (∀ (st : Bool) (D : Int), rootShape st w D t = true → rootShape st w D t' = true)
 
 theorem truncate_ok (w : Nat) (t : FNode) :
     wellSized t = true → ∀ sz, sz < size t → ∃ t', dagTruncate t sz = some t' ∧ TruncOK w t t' sz := by
@@ -242,22 +282,26 @@ theorem truncate_ok (w : Nat) (t : FNode) :
       ∃ t', dagTruncate t sz = some t' ∧ TruncOK w t t' sz)
     (Q := fun cs => wellSizedL cs = true → ∀ cur sz, cur ≤ sz → sz < cur + recSum cs →
       ∃ l, truncL cs cur sz = some l ∧ contentL l = (contentL cs).take (sz - cur) ∧ wellSizedL l = true ∧
-        recSum l = sz - cur ∧ (∀ (D : Int) i, tshapeL w D i cs = true → tshapeL w D i l = true))
+        recSum l = sz - cur ∧ (∀ (st : Bool) (D : Int) i, tshapeL st w D i cs = true → tshapeL st w D i l = true))
     ?_ ?_ ?_ ?_ t
   · intro d _ sz hsz
     simp only [size_leaf] at hsz
-    exact ⟨_, dagTruncate_leaf d sz, by simp, by simp, by simp; omega, by intro D h; simpa using h, by simp [isNode]⟩
+    exact ⟨_, dagTruncate_leaf d sz, by simp, by simp, by simp; omega, by intro D h; simpa using h, by simp [isNode],
+      by intro st D h; simp [rootShape] at h⟩
   · intro fs cs ih hws sz hsz
     simp only [wellSized_node, Bool.and_eq_true, beq_iff_eq] at hws
     simp only [size_node] at hsz
     obtain ⟨l, hl, l1, l2, l3, l4⟩ := ih hws.2 0 sz (Nat.zero_le _) (by omega)
-    refine ⟨.node (recSum l) l, by rw [dagTruncate_node, hl]; rfl, ?_, ?_, ?_, ?_, by simp [isNode]⟩
+    refine ⟨.node (recSum l) l, by rw [dagTruncate_node, hl]; rfl, ?_, ?_, ?_, ?_, by simp [isNode], ?_⟩
     · simpa using l1
     · simp [l2]
     · simpa using l3
     · intro D hD
       simp only [tshape_node, Bool.and_eq_true] at hD ⊢
-      exact ⟨hD.1, l4 D 0 hD.2⟩
+      exact ⟨hD.1, l4 true D 0 hD.2⟩
+    · intro st D hD
+      simp only [rootShape] at hD ⊢
+      exact l4 st D 0 hD
   · intro _ cur sz _ h; simp at h; omega
   · intro c r ihc ihr hws cur sz hle hlt
     simp only [wellSizedL_cons, Bool.and_eq_true, beq_iff_eq] at hws
@@ -267,23 +311,17 @@ theorem truncate_ok (w : Nat) (t : FNode) :
     rw [truncL_cons]
     by_cases hin : sz < cur + size c.1
     · simp only [hin, if_true]
-      obtain ⟨t', ht', c1, c2, c3, c4, _⟩ := ihc hcw (sz - cur) (by omega)
+      obtain ⟨t', ht', c1, c2, c3, c4, _, _⟩ := ihc hcw (sz - cur) (by omega)
       refine ⟨[(t', sz - cur)], by rw [ht']; rfl, ?_, ?_, by simp, ?_⟩
       · simp only [contentL_cons, contentL_nil, List.append_nil, c1]
         rw [List.take_append_of_le_length (by omega)]
       · simp [c2, c3]
-      · intro D i h
+      · intro st D i h
         rw [tshapeL_cons'] at h
         simp only [Bool.and_eq_true] at h
         rw [tshapeL_cons']
         simp only [tshapeL_nil, Bool.and_true]
-        have h1 := h.1
-        unfold childOK at h1 ⊢
-        split
-        · rename_i hi; simp only [hi, if_true] at h1; exact c4 _ h1
-        · rename_i hi
-          simp only [hi, if_false, Bool.and_eq_true] at h1 ⊢
-          exact ⟨h1.1, c4 _ h1.2⟩
+        exact childOK_imp st w D i _ _ c4 h.1
     · simp only [hin, if_false]
       obtain ⟨l, hl, l1, l2, l3, l4⟩ := ihr hrw (cur + size c.1) sz (by omega) (by omega)
       refine ⟨(c.1, size c.1) :: l, by rw [hl]; rfl, ?_, ?_, ?_, ?_⟩
@@ -293,10 +331,10 @@ theorem truncate_ok (w : Nat) (t : FNode) :
         simp [List.take_of_length_le]
       · simp [hcw, l2]
       · simp [l3]; omega
-      · intro D i h
+      · intro st D i h
         rw [tshapeL_cons'] at h ⊢
         simp only [Bool.and_eq_true] at h ⊢
-        exact ⟨h.1, l4 D _ h.2⟩
+        exact ⟨h.1, l4 st D _ h.2⟩
 
 /-! ### the size splitter -/
 
@@ -320,48 +358,32 @@ theorem chunksOf_flatten (k : Nat) (hk : 1 ≤ k) (bs : List UInt8) : (chunksOf 
 
 /-! ### appendData / expandSparse -/
 
-/-- the trees the modifier works on: well-sized, and either a single leaf or a trickle-shaped node -/
+/-- the trees the modifier works on: well-sized, and either a single leaf or a node whose children from index
+`w` on are trickle sub-graphs of the right depths (`rootShape false`): every trickle root, every balanced root
+(it has at most `w` children), and whatever the modifier makes of them -/
 def TOK (w : Nat) (t : FNode) : Prop :=
-  wellSized t = true ∧ (isNode t = false ∨ tshape w (-1) t = true)
+  wellSized t = true ∧ (isNode t = false ∨ rootShape false w (-1) t = true)
 
 theorem appendData_ok (c : Cfg) (hw : 1 ≤ c.w) (t : FNode) (chunks : List Chunk) (ht : TOK c.w t) :
     ∃ t', appendData c t chunks = some t' ∧ content t' = content t ++ chunks.flatten ∧
-      wellSized t' = true ∧ tshape c.w (-1) t' = true ∧ isNode t' = true := by
+      wellSized t' = true ∧ rootShape false c.w (-1) t' = true := by
   obtain ⟨hws, hsh⟩ := ht
-  have key : ∀ b : FNode, wellSized b = true → tshape c.w (-1) b = true →
+  have key : ∀ b : FNode, wellSized b = true → rootShape false c.w (-1) b = true →
       ∃ t', (append c.w b chunks).map (·.root) = some t' ∧ content t' = content b ++ chunks.flatten ∧
-        wellSized t' = true ∧ tshape c.w (-1) t' = true ∧ isNode t' = true := by
+        wellSized t' = true ∧ rootShape false c.w (-1) t' = true := by
     intro b hb hs
-    obtain ⟨o, ho⟩ := append_total c.w hw b chunks hb hs
-    refine ⟨o.root, by simp [ho], ?_, ?_, ?_, ?_⟩
-    · cases b with
-      | leaf d => simp [append, getChild] at ho
-      | node fs links =>
-        simp only [wellSized_node, Bool.and_eq_true, beq_iff_eq] at hb
-        simp only [append, getChild] at ho
-        have := (appendB_spec c.w _ { links := links, filesize := fs } { spl := chunks } o ⟨hb.1, hb.2⟩ ho).2
-        simpa [DB.flat, DB.pending] using this
-    · cases b with
-      | leaf d => simp [append, getChild] at ho
-      | node fs links =>
-        simp only [wellSized_node, Bool.and_eq_true, beq_iff_eq] at hb
-        simp only [append, getChild] at ho
-        exact (appendB_spec c.w _ { links := links, filesize := fs } { spl := chunks } o ⟨hb.1, hb.2⟩ ho).1
-    · cases b with
-      | leaf d => simp [append, getChild] at ho
-      | node fs links =>
-        simp only [tshape_node, Bool.and_eq_true] at hs
-        simp only [append, getChild] at ho
-        exact appendB_shape c.w hw _ { links := links, filesize := fs } { spl := chunks } o hs.2 ho
-    · cases b with
-      | leaf d => simp [append, getChild] at ho
-      | node fs links =>
-        simp only [append, getChild] at ho
-        have hsh := appendB_shape c.w hw _ { links := links, filesize := fs } { spl := chunks } o
-          (by simp only [tshape_node, Bool.and_eq_true] at hs; exact hs.2) ho
-        cases hr : o.root with
-        | leaf d => rw [hr] at hsh; simp at hsh
-        | node a b => simp [isNode]
+    obtain ⟨o, ho⟩ := append_total false c.w hw b chunks hb hs
+    cases b with
+    | leaf d => simp [append, getChild] at ho
+    | node fs links =>
+      simp only [wellSized_node, Bool.and_eq_true, beq_iff_eq] at hb
+      simp only [rootShape] at hs
+      have ho' := ho
+      simp only [append, getChild] at ho'
+      have sp := appendB_spec c.w _ { links := links, filesize := fs } { spl := chunks } o ⟨hb.1, hb.2⟩ ho'
+      refine ⟨o.root, by simp [ho], ?_, sp.1, ?_⟩
+      · simpa [DB.flat, DB.pending] using sp.2
+      · exact appendB_shape false c.w hw _ { links := links, filesize := fs } { spl := chunks } o hs ho'
   cases t with
   | node fs cs =>
     rcases hsh with h | h
@@ -372,9 +394,7 @@ theorem appendData_ok (c : Cfg) (hw : 1 ≤ c.w) (t : FNode) (chunks : List Chun
     by_cases hcond : c.raw = true ∨ ¬ d.isEmpty = true
     · simp only [hcond, if_true]
       have := key (.node d.length [(.leaf d, d.length)]) (by simp)
-        (by
-          have : 0 < c.w := by omega
-          simp [tshapeL_cons, this])
+        (by simp only [rootShape]; exact tshapeL_relaxed_short c.w (-1) _ 0 (by simp; omega))
       simpa using this
     · simp only [hcond, if_false]
       have hd : d = [] := by
@@ -384,13 +404,488 @@ theorem appendData_ok (c : Cfg) (hw : 1 ≤ c.w) (t : FNode) (chunks : List Chun
           | false => exact absurd (Or.inr (by simp [h])) hcond
         simpa using this
       subst hd
-      have := key (.node 0 []) (by simp) (by simp)
+      have := key (.node 0 []) (by simp) (by simp [rootShape])
       simpa using this
 
 theorem expandSparse_ok (c : Cfg) (hw : 1 ≤ c.w) (t : FNode) (n : Nat) (ht : TOK c.w t) :
     ∃ t', expandSparse c t n = some t' ∧ content t' = content t ++ List.replicate n 0 ∧
-      wellSized t' = true ∧ tshape c.w (-1) t' = true ∧ isNode t' = true := by
+      wellSized t' = true ∧ rootShape false c.w (-1) t' = true := by
   obtain ⟨t', h1, h2, h3⟩ := appendData_ok c hw t (chunksOf 4096 (List.replicate n 0)) ht
   exact ⟨t', h1, by rw [h2, chunksOf_flatten 4096 (by omega)], h3⟩
+
+/-! ### bytes, pointwise (reading beyond the end gives 0: zero-extension disappears) -/
+
+def getB (l : List UInt8) (i : Nat) : UInt8 := l[i]?.getD 0
+
+theorem ext_getB (x y : List UInt8) (hl : x.length = y.length) (h : ∀ i, getB x i = getB y i) : x = y := by
+  apply List.ext_getElem hl
+  intro i h1 h2
+  have := h i
+  simp only [getB, List.getElem?_eq_getElem h1, List.getElem?_eq_getElem h2, Option.getD_some] at this
+  exact this
+
+theorem getB_append (a b : List UInt8) (i : Nat) :
+    getB (a ++ b) i = if i < a.length then getB a i else getB b (i - a.length) := by
+  unfold getB
+  split
+  · rename_i h; rw [List.getElem?_append_left h]
+  · rename_i h; rw [List.getElem?_append_right (by omega)]
+
+theorem getB_replicate (n i : Nat) : getB (List.replicate n 0) i = 0 := by
+  unfold getB
+  rw [List.getElem?_replicate]
+  split <;> simp
+
+theorem getB_beyond (l : List UInt8) (i : Nat) (h : l.length ≤ i) : getB l i = 0 := by
+  unfold getB
+  rw [List.getElem?_eq_none h]; rfl
+
+theorem getB_zext (f : List UInt8) (n i : Nat) : getB (zext f n) i = getB f i := by
+  unfold zext
+  rw [getB_append]
+  split
+  · rfl
+  · rw [getB_replicate, getB_beyond _ _ (by omega)]
+
+theorem getB_take (l : List UInt8) (n i : Nat) : getB (l.take n) i = if i < n then getB l i else 0 := by
+  unfold getB
+  rw [List.getElem?_take]
+  split <;> simp
+
+theorem getB_drop (l : List UInt8) (n i : Nat) : getB (l.drop n) i = getB l (n + i) := by
+  unfold getB
+  rw [List.getElem?_drop]
+
+@[simp] theorem zext_length (f : List UInt8) (n : Nat) : (zext f n).length = max f.length n := by
+  simp [zext]; omega
+
+@[simp] theorem pwrite_length (f : List UInt8) (o : Nat) (b : List UInt8) :
+    (pwrite f o b).length = max f.length (o + b.length) := by
+  simp [pwrite]; omega
+
+theorem getB_pwrite (f : List UInt8) (o : Nat) (b : List UInt8) (i : Nat) :
+    getB (pwrite f o b) i = if o ≤ i ∧ i < o + b.length then getB b (i - o) else getB f i := by
+  unfold pwrite
+  rw [getB_append, getB_append]
+  simp only [List.length_append, List.length_take, zext_length]
+  have hmin : min o (max f.length o) = o := by omega
+  rw [hmin]
+  by_cases h1 : i < o
+  · have : i < o + b.length := by omega
+    simp only [this, if_true, h1]
+    rw [getB_take, getB_zext]
+    simp [h1]
+    intro h; omega
+  · by_cases h2 : i < o + b.length
+    · simp [h1, h2]
+    · simp only [h1, h2, if_false]
+      rw [getB_drop]
+      simp only [and_false, if_false]
+      congr 1; omega
+
+theorem pwrite_pwrite_append (f : List UInt8) (o : Nat) (a b : List UInt8) :
+    pwrite (pwrite f o a) (o + a.length) b = pwrite f o (a ++ b) := by
+  apply ext_getB
+  · simp; omega
+  · intro i
+    simp only [getB_pwrite, List.length_append, getB_append]
+    by_cases h1 : o ≤ i ∧ i < o + a.length
+    · have : ¬ (o + a.length ≤ i ∧ i < o + a.length + b.length) := by omega
+      have h3 : o ≤ i ∧ i < o + (a.length + b.length) := by omega
+      have h4 : i - o < a.length := by omega
+      simp [h1, this, h3, h4]
+    · by_cases h2 : o + a.length ≤ i ∧ i < o + a.length + b.length
+      · have h3 : o ≤ i ∧ i < o + (a.length + b.length) := by omega
+        have h4 : ¬ i - o < a.length := by omega
+        have h5 : i - (o + a.length) = i - o - a.length := by omega
+        simp [h2, h3, h4, h5]
+      · have h3 : ¬ (o ≤ i ∧ i < o + (a.length + b.length)) := by omega
+        simp [h1, h2, h3]
+
+theorem pwrite_pwrite_cover (f : List UInt8) (o : Nat) (a b : List UInt8) (h : a.length ≤ b.length) :
+    pwrite (pwrite f o a) o b = pwrite f o b := by
+  apply ext_getB
+  · simp; omega
+  · intro i
+    simp only [getB_pwrite]
+    by_cases h1 : o ≤ i ∧ i < o + b.length
+    · simp [h1]
+    · have : ¬ (o ≤ i ∧ i < o + a.length) := by omega
+      simp [h1, this]
+
+/-- writing at `off` does not care what zero padding the file already has below `off` -/
+theorem pwrite_congr (X Y : List UInt8) (off : Nat) (b : List UInt8) (hx : X.length ≤ off) (hy : Y.length ≤ off)
+    (h : ∀ i, getB X i = getB Y i) : pwrite X off b = pwrite Y off b := by
+  apply ext_getB
+  · simp; omega
+  · intro i; simp only [getB_pwrite, h]
+
+theorem getB_append_zeros (C : List UInt8) (m i : Nat) : getB (C ++ List.replicate m 0) i = getB C i := by
+  rw [getB_append]
+  split
+  · rfl
+  · rw [getB_replicate, getB_beyond _ _ (by omega)]
+
+theorem zext_of_le (f : List UInt8) (n : Nat) (h : n ≤ f.length) : zext f n = f := by
+  have : n - f.length = 0 := by omega
+  simp [zext, this]
+
+/-- structural form of "overwrite, then what did not fit" -/
+theorem ow_owRest (X : List UInt8) : ∀ ws buf, ws ≤ X.length →
+    ow X ws buf ++ owRest X ws buf = X.take ws ++ buf ++ X.drop (ws + buf.length) := by
+  induction X with
+  | nil => intro ws buf h; simp at h; subst h; simp [ow, owRest]
+  | cons x X ih =>
+    intro ws buf h
+    cases ws with
+    | succ ws =>
+      simp only [List.length_cons, Nat.add_le_add_iff_right] at h
+      have e : ws + 1 + buf.length = (ws + buf.length) + 1 := by omega
+      simp only [ow, owRest, List.cons_append, List.take_succ_cons, e, List.drop_succ_cons, ih ws buf h]
+    | zero =>
+      cases buf with
+      | nil => simp [ow, owRest]
+      | cons b buf =>
+        have := ih 0 buf (Nat.zero_le _)
+        simp only [List.take_zero, List.nil_append, Nat.zero_add] at this
+        simp only [ow, owRest, List.cons_append, List.take_zero, List.nil_append, Nat.zero_add, List.length_cons,
+          List.drop_succ_cons, this]
+
+/-- what Sync computes (expand to writeStart, overwrite in place, append the rest) is the positional write -/
+theorem sync_bytes (C : List UInt8) (ws : Nat) (buf : List UInt8) :
+    ow (zext C ws) ws buf ++ owRest (zext C ws) ws buf = pwrite C ws buf := by
+  rw [ow_owRest _ _ _ (by simp; omega)]
+  unfold pwrite
+  congr 1
+  by_cases h : ws ≤ C.length
+  · rw [zext_of_le _ _ h]
+  · have h1 : (zext C ws).length ≤ ws + buf.length := by simp; omega
+    rw [List.drop_eq_nil_of_le h1, List.drop_eq_nil_of_le (by omega)]
+
+theorem take_zext (f : List UInt8) (sz : Nat) :
+    (zext f sz).take sz = if sz ≤ f.length then f.take sz else f ++ List.replicate (sz - f.length) 0 := by
+  split
+  · rename_i h; rw [zext_of_le _ _ h]
+  · rename_i h
+    apply List.take_of_length_le
+    simp [zext]; omega
+
+/-! ### control layer -/
+
+/-- the representation invariant of the modifier state -/
+def Inv (c : Cfg) (s : DM) : Prop :=
+  1 ≤ c.w ∧ 1 ≤ c.k ∧ TOK c.w s.cur ∧ ∀ buf, s.wrBuf = some buf → s.curWrOff = s.writeStart + buf.length
+
+theorem TOK.size_eq {w : Nat} {t : FNode} (h : TOK w t) : size t = (content t).length :=
+  size_eq_of_wellSized t h.1
+
+theorem TOK.of_node {w : Nat} {t : FNode} (h1 : wellSized t = true) (h2 : rootShape false w (-1) t = true) : TOK w t :=
+  ⟨h1, Or.inr h2⟩
+
+theorem sync_ok (c : Cfg) (s : DM) (h : Inv c s) :
+    ∃ s1, sync c s = some s1 ∧ Inv c s1 ∧ s1.wrBuf = none ∧ content s1.cur = s.bytes ∧
+      s1.curWrOff = s.curWrOff ∧ (s.wrBuf = none → s1 = s) := by
+  obtain ⟨hw, hk, htok, hbuf⟩ := h
+  cases hb : s.wrBuf with
+  | none =>
+    refine ⟨s, by simp [sync, hb], ⟨hw, hk, htok, hbuf⟩, hb, by simp [DM.bytes, hb], rfl, fun _ => rfl⟩
+  | some buf =>
+    have hsz := htok.size_eq
+    -- expandSparse up to writeStart
+    have h1 : ∃ cur1, (if size s.cur < s.writeStart then expandSparse c s.cur (s.writeStart - size s.cur)
+        else some s.cur) = some cur1 ∧ content cur1 = zext (content s.cur) s.writeStart ∧ TOK c.w cur1 := by
+      by_cases hlt : size s.cur < s.writeStart
+      · obtain ⟨t', e1, e2, e3, e4⟩ := expandSparse_ok c hw s.cur (s.writeStart - size s.cur) htok
+        exact ⟨t', by simp [hlt, e1], by rw [e2, hsz]; rfl, TOK.of_node e3 e4⟩
+      · exact ⟨s.cur, by simp [hlt], by rw [zext_of_le _ _ (by omega)], htok⟩
+    obtain ⟨cur1, e1, c1, t1⟩ := h1
+    obtain ⟨m1, m2, m3, m4, m5, m6, m7⟩ := modify_ok c.w cur1 t1.1 s.writeStart buf
+    have tm : TOK c.w (modifyDag cur1 s.writeStart buf).1 := by
+      refine ⟨m3, ?_⟩
+      rcases t1.2 with hl | hn
+      · left; rw [m6]; exact hl
+      · right; exact m7 _ _ hn
+    have h2 : ∃ cur2, (if (modifyDag cur1 s.writeStart buf).2.isEmpty then some (modifyDag cur1 s.writeStart buf).1
+        else appendData c (modifyDag cur1 s.writeStart buf).1 (chunksOf c.k (modifyDag cur1 s.writeStart buf).2))
+          = some cur2 ∧ content cur2 = pwrite (content s.cur) s.writeStart buf ∧ TOK c.w cur2 := by
+      have hb := sync_bytes (content s.cur) s.writeStart buf
+      rw [← c1, ← m1, ← m2] at hb
+      by_cases he : (modifyDag cur1 s.writeStart buf).2.isEmpty = true
+      · refine ⟨_, by simp [he], ?_, tm⟩
+        have : (modifyDag cur1 s.writeStart buf).2 = [] := by simpa using he
+        rw [this] at hb; simpa using hb
+      · obtain ⟨t', a1, a2, a3, a4⟩ := appendData_ok c hw _ (chunksOf c.k (modifyDag cur1 s.writeStart buf).2) tm
+        refine ⟨t', by simp [he, a1], ?_, TOK.of_node a3 a4⟩
+        rw [a2, chunksOf_flatten c.k hk, hb]
+    obtain ⟨cur2, e2, c2, t2⟩ := h2
+    refine ⟨{ s with cur := cur2, writeStart := s.writeStart + buf.length, wrBuf := none }, ?_, ?_, rfl, ?_, rfl, ?_⟩
+    · unfold sync
+      simp only [hb, e1, e2]
+    · exact ⟨hw, hk, t2, by intro b hb'; simp at hb'⟩
+    · simp [DM.bytes, hb, c2]
+    · intro h'; simp at h'
+
+theorem DM.size_eq (c : Cfg) (s : DM) (h : Inv c s) : s.size = s.bytes.length := by
+  obtain ⟨_, _, htok, _⟩ := h
+  unfold DM.size DM.bytes
+  cases s.wrBuf with
+  | none => exact htok.size_eq
+  | some buf => simp only [pwrite_length, htok.size_eq]; omega
+
+theorem write_ok (c : Cfg) (s : DM) (b : List UInt8) (h : Inv c s) :
+    (write c s b).2.2 = true ∧ (write c s b).2.1 = b.length ∧ Inv c (write c s b).1 ∧
+    (write c s b).1.bytes = pwrite s.bytes s.curWrOff b ∧ (write c s b).1.curWrOff = s.curWrOff + b.length := by
+  obtain ⟨hw, hk, htok, hbuf⟩ := h
+  -- the state with the bytes added to the buffer
+  have hs1 : ∀ s1 : DM, s1 = DM.mk s.cur (if s.wrBuf.isNone then s.curWrOff else s.writeStart)
+        (s.curWrOff + b.length) (some (s.wrBuf.getD [] ++ b)) →
+      Inv c s1 ∧ s1.bytes = pwrite s.bytes s.curWrOff b ∧ s1.curWrOff = s.curWrOff + b.length := by
+    intro s1 e
+    subst e
+    cases hb : s.wrBuf with
+    | none =>
+      refine ⟨⟨hw, hk, htok, ?_⟩, ?_, rfl⟩
+      · intro buf hb'
+        simp only [hb, Option.getD_none, List.nil_append, Option.some.injEq] at hb'
+        subst hb'; simp [hb]
+      · simp [DM.bytes, hb]
+    | some buf =>
+      have hpos := hbuf buf hb
+      refine ⟨⟨hw, hk, htok, ?_⟩, ?_, rfl⟩
+      · intro buf' hb'
+        simp only [hb, Option.getD_some, Option.some.injEq] at hb'
+        subst hb'; simp [hb, hpos]; omega
+      · simp only [DM.bytes, hb, Option.getD_some, Option.isNone_some, Bool.false_eq_true, if_false]
+        rw [hpos, pwrite_pwrite_append]
+  obtain ⟨i1, i2, i3⟩ := hs1 _ rfl
+  unfold write
+  simp only
+  split
+  · obtain ⟨s2, y1, y2, y3, y4, y5, _⟩ := sync_ok c _ i1
+    simp only [y1]
+    refine ⟨trivial, trivial, y2, ?_, ?_⟩
+    · simp only [DM.bytes, y3, y4]; exact i2
+    · rw [y5]
+  · exact ⟨rfl, rfl, i1, i2, i3⟩
+
+theorem read_ok (c : Cfg) (s : DM) (k : Nat) (h : Inv c s) :
+    (read c s k).2.2 = true ∧ (read c s k).2.1 = (s.bytes.drop s.curWrOff).take k ∧ Inv c (read c s k).1 ∧
+    (read c s k).1.bytes = s.bytes ∧
+    (read c s k).1.curWrOff = s.curWrOff + ((s.bytes.drop s.curWrOff).take k).length := by
+  obtain ⟨s1, y1, y2, y3, y4, y5, _⟩ := sync_ok c s h
+  unfold read
+  simp only [y1, y4, y5]
+  refine ⟨trivial, trivial, ?_, ?_, trivial⟩
+  · obtain ⟨a, b, c', d⟩ := y2
+    exact ⟨a, b, c', by intro buf hb; simp [y3] at hb⟩
+  · simp [DM.bytes, y3, y4]
+
+theorem seek_ok (c : Cfg) (s : DM) (off : Int) (whence : Nat) (h : Inv c s) :
+    Inv c (seek c s off whence).1 ∧
+    C10.abs (seek c s off whence).1 = (specStep (C10.abs s) (.seek off whence)).1 ∧
+    (if (seek c s off whence).2.2 then Out.pos (seek c s off whence).2.1 else Out.err) =
+      (specStep (C10.abs s) (.seek off whence)).2 := by
+  obtain ⟨s1, y1, y2, y3, y4, y5, _⟩ := sync_ok c s h
+  have hsz : (s1.size : Int) = (s.bytes.length : Int) := by
+    rw [DM.size_eq c s1 y2]; simp [DM.bytes, y3, y4]
+  have habs : C10.abs s1 = C10.abs s := by simp [C10.abs, DM.bytes, y3, y4, y5]
+  unfold seek
+  simp only [y1, specStep, C10.abs, hsz, y5]
+  generalize ht : (if whence = 1 then some ((s.curWrOff : Int) + off)
+      else if whence = 0 then some off
+      else if whence = 2 then some ((s.bytes.length : Int) + off) else none) = target
+  cases target with
+  | none =>
+    simp only
+    exact ⟨y2, by simpa [C10.abs] using habs, by simp⟩
+  | some t =>
+    simp only
+    by_cases hneg : t < 0
+    · simp only [hneg, if_true]
+      exact ⟨y2, by simpa [C10.abs] using habs, by simp⟩
+    · simp only [hneg, if_false]
+      obtain ⟨hw, hk, htok, _⟩ := y2
+      have h1 : ∃ cur1, (if t > (s.bytes.length : Int) then expandSparse c s1.cur (t - (s.bytes.length : Int)).toNat
+          else some s1.cur) = some cur1 ∧ content cur1 = zext s.bytes t.toNat ∧ TOK c.w cur1 := by
+        by_cases hgt : t > (s.bytes.length : Int)
+        · obtain ⟨t', e1, e2, e3, e4⟩ := expandSparse_ok c hw s1.cur (t - (s.bytes.length : Int)).toNat htok
+          refine ⟨t', by rw [if_pos hgt]; exact e1, ?_, TOK.of_node e3 e4⟩
+          rw [e2, y4]
+          have : (t - (s.bytes.length : Int)).toNat = t.toNat - s.bytes.length := by omega
+          rw [this]; rfl
+        · refine ⟨s1.cur, by simp [hgt], ?_, htok⟩
+          rw [y4, zext_of_le _ _ (by omega)]
+      obtain ⟨cur1, e1, c1, t1⟩ := h1
+      simp only [e1]
+      refine ⟨⟨hw, hk, t1, by intro buf hb; simp [y3] at hb⟩, ?_, by simp⟩
+      simp [DM.bytes, y3, c1]
+
+theorem truncate_ctl_ok (c : Cfg) (s : DM) (sz : Nat) (h : Inv c s) :
+    (truncate c s sz).2 = true ∧ Inv c (truncate c s sz).1 ∧
+    (truncate c s sz).1.bytes = (zext s.bytes sz).take sz ∧ (truncate c s sz).1.curWrOff = s.curWrOff := by
+  obtain ⟨s1, y1, y2, y3, y4, y5, _⟩ := sync_ok c s h
+  have hsz : s1.size = s.bytes.length := by
+    rw [DM.size_eq c s1 y2]; simp [DM.bytes, y3, y4]
+  obtain ⟨hw, hk, htok, _⟩ := y2
+  have hnb : ∀ t, ∀ buf, ({ s1 with cur := t } : DM).wrBuf = some buf →
+      ({ s1 with cur := t } : DM).curWrOff = ({ s1 with cur := t } : DM).writeStart + buf.length := by
+    intro t buf hb; simp [y3] at hb
+  unfold truncate
+  simp only [y1, hsz]
+  rw [take_zext]
+  by_cases heq : sz = s.bytes.length
+  · simp only [heq, if_true, Nat.le_refl]
+    refine ⟨trivial, ⟨hw, hk, htok, by intro buf hb; simp [y3] at hb⟩, ?_, y5⟩
+    simp [DM.bytes, y3, y4]
+  · simp only [heq, if_false]
+    by_cases hgt : sz > s.bytes.length
+    · have hle : ¬ sz ≤ s.bytes.length := by omega
+      simp only [hgt, if_true, hle, if_false]
+      obtain ⟨t', e1, e2, e3, e4⟩ := expandSparse_ok c hw s1.cur (sz - s.bytes.length) htok
+      simp only [e1]
+      refine ⟨trivial, ⟨hw, hk, TOK.of_node e3 e4, hnb t'⟩, ?_, y5⟩
+      simp [DM.bytes, y3, e2, y4]
+    · have hle : sz ≤ s.bytes.length := by omega
+      simp only [hgt, if_false, hle, if_true]
+      obtain ⟨t', e1, e2, e3, e4, e5, e6, e7⟩ := truncate_ok c.w s1.cur htok.1 sz (by rw [htok.size_eq, y4]; omega)
+      simp only [e1]
+      refine ⟨trivial, ⟨hw, hk, ⟨e3, ?_⟩, hnb t'⟩, ?_, y5⟩
+      · rcases htok.2 with hl | hn
+        · left; rw [e6]; exact hl
+        · right; exact e7 _ _ hn
+      · simp [DM.bytes, y3, e2, y4]
+
+theorem content_collapse (c : Cfg) (t : FNode) : content (collapse c t) = content t := by
+  unfold collapse
+  split
+  · split
+    · simp
+    · rfl
+  · rfl
+
+theorem getNode_ok (c : Cfg) (s : DM) (h : Inv c s) :
+    ∃ t, (getNode c s).2 = some t ∧ content t = s.bytes ∧ Inv c (getNode c s).1 ∧
+      (getNode c s).1.bytes = s.bytes ∧ (getNode c s).1.curWrOff = s.curWrOff := by
+  obtain ⟨s1, y1, y2, y3, y4, y5, _⟩ := sync_ok c s h
+  unfold getNode
+  simp only [y1]
+  exact ⟨_, rfl, by rw [content_collapse, y4], y2, by simp [DM.bytes, y3, y4], y5⟩
+
+theorem writeAt_ok (c : Cfg) (s : DM) (b : List UInt8) (off : Nat) (h : Inv c s) :
+    (writeAt c s b off).2.2 = true ∧ (writeAt c s b off).2.1 = b.length ∧ Inv c (writeAt c s b off).1 ∧
+    (writeAt c s b off).1.bytes = pwrite s.bytes off b ∧ (writeAt c s b off).1.curWrOff = off + b.length := by
+  have hgen : (writeAt.general c s b off).2.2 = true ∧ (writeAt.general c s b off).2.1 = b.length ∧
+      Inv c (writeAt.general c s b off).1 ∧ (writeAt.general c s b off).1.bytes = pwrite s.bytes off b ∧
+      (writeAt.general c s b off).1.curWrOff = off + b.length := by
+    unfold writeAt.general
+    by_cases hne : off ≠ s.curWrOff
+    · simp only [hne, ne_eq, not_false_eq_true, if_true]
+      obtain ⟨hw, hk, htok, hbuf⟩ := h
+      have hsz := DM.size_eq c s ⟨hw, hk, htok, hbuf⟩
+      -- the early expandSparse
+      have h1 : ∃ cur1, (if off > s.size then expandSparse c s.cur (off - s.size) else some s.cur) = some cur1 ∧
+          TOK c.w cur1 ∧ ∃ m, content cur1 = content s.cur ++ List.replicate m 0 ∧
+            (m = 0 ∨ (content s.cur).length + m ≤ off ∧ s.bytes.length + m ≤ off) := by
+        by_cases hgt : off > s.size
+        · obtain ⟨t', e1, e2, e3, e4⟩ := expandSparse_ok c hw s.cur (off - s.size) htok
+          refine ⟨t', by simp [hgt, e1], TOK.of_node e3 e4, off - s.size, e2, Or.inr ?_⟩
+          have : (content s.cur).length ≤ s.bytes.length := by
+            unfold DM.bytes; cases s.wrBuf <;> simp; omega
+          omega
+        · exact ⟨s.cur, by simp [hgt], htok, 0, by simp, Or.inl rfl⟩
+      obtain ⟨cur1, e1, t1, m, c1, hm⟩ := h1
+      simp only [e1]
+      have inv1 : Inv c { s with cur := cur1 } := ⟨hw, hk, t1, hbuf⟩
+      obtain ⟨s2, y1, y2, y3, y4, y5, _⟩ := sync_ok c _ inv1
+      simp only [y1]
+      have inv3 : Inv c { s2 with writeStart := off, curWrOff := off } := by
+        obtain ⟨a1, a2, a3, _⟩ := y2
+        exact ⟨a1, a2, a3, by intro buf hb; simp [y3] at hb⟩
+      obtain ⟨w1, w2, w3, w4, w5⟩ := write_ok c _ b inv3
+      refine ⟨w1, w2, w3, ?_, w5⟩
+      rw [w4]
+      simp only [DM.bytes, y3]
+      rw [y4]
+      -- zero padding below `off` is irrelevant
+      rcases hm with hm | ⟨hm1, hm2⟩
+      · subst hm
+        have : cur1 = cur1 := rfl
+        simp only [List.replicate_zero, List.append_nil] at c1
+        simp [DM.bytes, c1]
+      · apply pwrite_congr
+        · unfold DM.bytes
+          cases hb : s.wrBuf with
+          | none => simp [c1]; omega
+          | some buf =>
+            simp only [c1, pwrite_length, List.length_append, List.length_replicate]
+            have : s.bytes.length = max (content s.cur).length (s.writeStart + buf.length) := by
+              simp [DM.bytes, hb]
+            omega
+        · show s.bytes.length ≤ off
+          omega
+        · intro i
+          unfold DM.bytes
+          cases hb : s.wrBuf with
+          | none => simp [c1, getB_append_zeros]
+          | some buf => simp only [getB_pwrite, c1, getB_append_zeros]
+    · have he : off = s.curWrOff := by simpa using hne
+      simp only [he, ne_eq, not_true_eq_false, if_false]
+      obtain ⟨w1, w2, w3, w4, w5⟩ := write_ok c s b h
+      exact ⟨w1, w2, w3, w4, w5⟩
+  unfold writeAt
+  cases hb : s.wrBuf with
+  | none => simpa using hgen
+  | some buf =>
+    simp only
+    by_cases hcond : off = s.writeStart ∧ b.length ≥ buf.length
+    · simp only [hcond, and_self, if_true]
+      obtain ⟨hw, hk, htok, hbuf⟩ := h
+      have inv' : Inv c { s with wrBuf := some [], curWrOff := s.writeStart } :=
+        ⟨hw, hk, htok, by intro buf' hb'; simp at hb'; subst hb'; simp⟩
+      obtain ⟨w1, w2, w3, w4, w5⟩ := write_ok c _ b inv'
+      refine ⟨w1, w2, w3, ?_, by rw [w5]; try simp [hcond.1]⟩
+      rw [w4]
+      simp only [DM.bytes, hb, hcond.1]
+      rw [pwrite_pwrite_cover _ _ [] b (by simp), pwrite_pwrite_cover _ _ buf b hcond.2]
+    · simp only [hcond, if_false]
+      exact hgen
+
+/-- one step: the model's result and output are those of the file model, and the invariant is kept -/
+theorem step_refines (c : Cfg) (s : DM) (op : Op) (h : Inv c s) :
+    Inv c (step c s op).1 ∧ C10.abs (step c s op).1 = (specStep (C10.abs s) op).1 ∧
+    (step c s op).2 = (specStep (C10.abs s) op).2 := by
+  cases op with
+  | write b =>
+    obtain ⟨w1, w2, w3, w4, w5⟩ := write_ok c s b h
+    simp only [step, specStep, C10.abs, w1, w2, if_true, w4, w5]
+    exact ⟨w3, trivial, trivial⟩
+  | writeAt b off =>
+    obtain ⟨w1, w2, w3, w4, w5⟩ := writeAt_ok c s b off h
+    simp only [step, specStep, C10.abs, w1, w2, if_true, w4, w5]
+    exact ⟨w3, trivial, trivial⟩
+  | seek off whence =>
+    obtain ⟨k1, k2, k3⟩ := seek_ok c s off whence h
+    simp only [step]
+    exact ⟨k1, k2, k3⟩
+  | read k =>
+    obtain ⟨r1, r2, r3, r4, r5⟩ := read_ok c s k h
+    simp only [step, specStep, C10.abs, r1, r2, if_true, r4, r5]
+    exact ⟨r3, trivial, trivial⟩
+  | truncate sz =>
+    obtain ⟨t1, t2, t3, t4⟩ := truncate_ctl_ok c s sz h
+    simp only [step, specStep, C10.abs, t1, if_true, t3, t4]
+    exact ⟨t2, trivial, trivial⟩
+  | size =>
+    simp only [step, specStep, C10.abs, DM.size_eq c s h]
+    exact ⟨h, trivial, trivial⟩
+  | sync =>
+    obtain ⟨s1, y1, y2, y3, y4, y5, _⟩ := sync_ok c s h
+    simp only [step, y1, specStep, C10.abs, y5]
+    refine ⟨y2, ?_, trivial⟩
+    simp [DM.bytes, y3, y4]
+  | getNode =>
+    obtain ⟨t, g1, g2, g3, g4, g5⟩ := getNode_ok c s h
+    simp only [step, g1, specStep, C10.abs, g2, g4, g5]
+    exact ⟨g3, trivial, trivial⟩
 
 end C10
